@@ -52,6 +52,24 @@ CHECKS = {
  "C17": dict(engine="locksim", cat="exploration", ref="DESIGN.md §6 C17",
    text="Seeded open/close schedules of read-write and read-only handles on one path under the token scheduler and fake clock against a lock model; seeded API programs and the CLI inspection commands against a read-only handle with every I/O call observed and the file hash compared; writes into returned memory must fault or leave content unchanged.",
    tech="deterministic simulation: token scheduler + fake clock over flock retry/timeout, I/O interposition on a read-only handle, fault-or-copy probe"),
+ "C09": dict(engine="flspec", cat="exploration", ref="DESIGN.md §6 C09",
+   text="Seeded sequences of allocator operations, structured as the database issues them, run on both freelist backends against a shadow specification written from the property; serialisation checked by the published page layout incl. the >65534-entry encoding. The allocator has no I/O/clock/schedule: plain seeded model-based testing, said plainly.",
+   tech="seeded model-based testing of the freelist backends against a shadow specification (fault-free arm; no simulator dimension in this component)"),
+ "C11": dict(engine="corruptsim", cat="fault_enumeration", ref="DESIGN.md §6 C11",
+   text="Stored-byte fault injection on files at rest: every byte of each 64-byte meta record x replacement values (all 255 in thorough, boundary + sampled values in quick), every prefix of a would-be newer meta, both-damaged pairs, truncations, junk; expected Open result derived from the independent decoder and the model version table. Files are sampled.",
+   tech="fault injection on stored bytes (exhaustive per file in thorough) with an independent decoder as oracle"),
+ "C13": dict(engine="optsim", cat="exploration", ref="DESIGN.md §6 C13",
+   text="One seeded history executed under three option schedules (option assignment per Open, incl. flipping freelist-sync/backend at every reopen, different page sizes, read-only passes); every result compared with the model in each execution; rebuilt free list compared with the persisted one on the same file.",
+   tech="deterministic simulation (fault-free arm): option-schedule differential execution against the reference model and decoder"),
+ "C15": dict(engine="compactsim", cat="exploration", ref="DESIGN.md §6 C15",
+   text="Seeded source populations compacted (library and CLI) under a range of transaction-size limits; destination decoded, dumped, checked; source hash compared. No fault/schedule dimension: fault-free arm, said plainly.",
+   tech="seeded model-based testing over simulated histories as source population (fault-free arm)"),
+ "C19": dict(engine="corruptsim", cat="fault_enumeration", ref="DESIGN.md §6 C19",
+   text="Sweep of single structural corruptions of the listed classes over eligible pages/elements of consistent files from seeded histories; the independent decoder referees which classes are present; Tx.Check and `bbolt check` must report exactly then. Files are sampled; the sweep per file is capped.",
+   tech="structural fault injection on files at rest, independent decoder as referee, library + CLI"),
+ "C20": dict(engine="repairsim", cat="exploration", ref="DESIGN.md §6 C20",
+   text="Repair commands run from the CLI package on files from seeded histories; outputs decoded and opened, free == unreachable, revert output equals the previous model version, sources byte-identical.",
+   tech="seeded histories + CLI surgery commands judged by the independent decoder and the model version table (fault-free arm)"),
 }
 
 NA_PENDING = {}
@@ -78,6 +96,9 @@ m = {
    {"name":"batchsim","path":"props/batchsim.go","serves_properties":["C16"],"kind_free_text":"concurrent Batch callers under the token scheduler and fake clock"},
    {"name":"locksim","path":"props/locksim.go","serves_properties":["C17"],"kind_free_text":"lock schedules under scheduler + fake clock; read-only handle under I/O observation; CLI"},
    {"name":"reclaimsim","path":"props/reclaimsim.go","serves_properties":["C10"],"kind_free_text":"overwrite workloads with reader patterns; decoder-derived reclamation bounds"},
+   {"name":"corruptsim","path":"props/corruptsim.go","serves_properties":["C11","C19"],"kind_free_text":"stored-byte and structural corruption of files at rest"},
+   {"name":"toolsim","path":"props/toolsim.go","serves_properties":["C13","C15","C20"],"kind_free_text":"option schedules, compaction, repair commands over seeded histories"},
+   {"name":"flspec","path":"props/flspec.go","serves_properties":["C09"],"kind_free_text":"freelist backends vs shadow specification"},
    {"name":"modelsim","path":"props/modelsim.go","serves_properties":["C04","C05","C07","C12"],"kind_free_text":"fault-free single-task arm of the simulator: seeded programs, reference model, independent decoder"},
  ],
  "checks": [],
